@@ -35,6 +35,11 @@ def extras(seed):
             strs = [names[(a // 3 ** k) % 3] for k in range(nt)]
             ms.append(dict(mask=[STR[s] for s in strs], form="str", strs=strs, src="str"))
         ms.append(dict(mask=[[True, False, False]] * nt, form="default", src="default"))
+        # string form with only ONE term given: every omitted term defaults to the network parameters
+        for j in range(nt):
+            for sname in ("both", "eq_params"):
+                strs = [sname if k == j else None for k in range(nt)]
+                ms.append(dict(mask=[STR[sname] if k == j else [True, False, False] for k in range(nt)], form="str", strs=strs, src="str_partial"))
         # boolean trees written with their equation-parameter keys in another order, evaluated eagerly through a closure
         for a in range(24):
             bits = [[bool((a >> (k % 3)) & 1), bool(((a + k) >> 1) & 1), not bool(((a + k) >> 1) & 1)] for k in range(nt)]
